@@ -805,7 +805,7 @@ impl From<&Time> for Time {
 impl From<DateTime> for Time {
     fn from(value: DateTime) -> Self {
         Self {
-            nanoseconds: (value.as_nanos() % NANOS_PER_DAY as i128) as u64,
+            nanoseconds: value.as_nanos().rem_euclid(NANOS_PER_DAY as i128) as u64,
             offset: value.get_offset(),
         }
     }
@@ -813,7 +813,7 @@ impl From<DateTime> for Time {
 impl From<&DateTime> for Time {
     fn from(value: &DateTime) -> Self {
         Self {
-            nanoseconds: (value.as_nanos() % NANOS_PER_DAY as i128) as u64,
+            nanoseconds: value.as_nanos().rem_euclid(NANOS_PER_DAY as i128) as u64,
             offset: value.get_offset(),
         }
     }
@@ -855,7 +855,7 @@ impl Add for Time {
 
     fn add(self, rhs: Self) -> Self::Output {
         Time {
-            nanoseconds: self.nanoseconds + rhs.nanoseconds,
+            nanoseconds: (self.nanoseconds + rhs.nanoseconds) % NANOS_PER_DAY,
             offset: self.offset,
         }
     }
@@ -871,7 +871,7 @@ impl Sub for Time {
 
     fn sub(self, rhs: Self) -> Self::Output {
         Time {
-            nanoseconds: self.nanoseconds - rhs.nanoseconds,
+            nanoseconds: (self.nanoseconds + NANOS_PER_DAY - rhs.nanoseconds) % NANOS_PER_DAY,
             offset: self.offset,
         }
     }
@@ -886,8 +886,11 @@ impl Add<Duration> for Time {
     type Output = Self;
 
     fn add(self, rhs: Duration) -> Self::Output {
-        let nanos = self.as_nanos() + rhs.as_nanos() as u64;
-        Self::from_nanos(nanos).unwrap()
+        let nanos = (self.as_nanos() as u128 + rhs.as_nanos()) % NANOS_PER_DAY as u128;
+        Self {
+            nanoseconds: nanos as u64,
+            offset: self.offset,
+        }
     }
 }
 impl AddAssign<Duration> for Time {
@@ -900,8 +903,12 @@ impl Sub<Duration> for Time {
     type Output = Self;
 
     fn sub(self, rhs: Duration) -> Self::Output {
-        let nanos = self.as_nanos() - rhs.as_nanos() as u64;
-        Self::from_nanos(nanos).unwrap()
+        let nanos =
+            (self.as_nanos() as i128 - rhs.as_nanos() as i128).rem_euclid(NANOS_PER_DAY as i128);
+        Self {
+            nanoseconds: nanos as u64,
+            offset: self.offset,
+        }
     }
 }
 impl SubAssign<Duration> for Time {
